@@ -631,3 +631,42 @@ def check_strategies_read_the_name_at_call_time(ctx, rule, clause=''):
     ctx.unit('compile_time_closures_over_packets', n)
     if not found:
         ctx.holds(rule, ('bisturi/field.py', '<field strategies>'), 'no strategy closure captures the value of self.field_name at compile time', 'the attribute written is the name the field has when it is called', 0, clause=clause)
+
+
+
+def check_init_writes_own_keyword_only(ctx, rule, clause=''):
+    """Round 8.  field.init(packet, defaults) may complete the keyword dict for its own field
+    (defaults[self.field_name] = a fresh clone of the prototype) and for nothing else: an entry
+    under another name is, for Packet.__init__ and for the fields initialised later, a keyword
+    the user passed -- a described field is then forced to that value (its flag is set), a plain
+    field starts with a value that belongs to another object"""
+    repo = ctx.repo
+    n = 0
+    bad = False
+    for ci in repo.field_classes():
+        for mname, fi in ci.methods.items():
+            if not isinstance(fi.node, ast.FunctionDef):
+                continue
+            args = [a.arg for a in fi.node.args.args]
+            if 'defaults' not in args:
+                continue
+            for x in ast.walk(fi.node):
+                key = None
+                if isinstance(x, ast.Assign):
+                    for t in x.targets:
+                        if isinstance(t, ast.Subscript) and canon(t.value) == 'defaults':
+                            key = t.slice
+                elif isinstance(x, ast.Call) and isinstance(x.func, ast.Attribute) and canon(x.func.value) == 'defaults' and x.func.attr in ('setdefault', '__setitem__') and x.args:
+                    key = x.args[0]
+                elif isinstance(x, ast.Call) and isinstance(x.func, ast.Attribute) and canon(x.func.value) == 'defaults' and x.func.attr == 'update':
+                    key = ast.Name(id='<update>', ctx=ast.Load())
+                if key is None:
+                    continue
+                n += 1
+                st = '%s: %s' % (fi.qual, stmt_text(x)[:90])
+                if canon(key) == 'self.field_name':
+                    ctx.holds(rule, fi, st, 'completes the keyword dict for its own field', x.lineno, clause=clause)
+                else:
+                    bad = True
+                    ctx.violation(rule, fi, st, 'an entry is added to the constructor\'s keyword dict under %s, which is not this field\'s own name: the constructor and the fields initialised afterwards take it for a keyword the user passed (a described field is forced to it and no longer follows what it tracks)' % canon(key)[:40], x.lineno, clause=clause, witness=True)
+    ctx.unit('keyword_dict_writes_in_init', n)
